@@ -118,16 +118,29 @@ def build():
     ens["saves_previous"] = "all_same(self.old_parallel_config, old_config())"
     ens["installs_new"] = "cur_config() is_same_dict self.parallel_config" if False else "same_obj(cur_config(), self.parallel_config)"
     ens["only_tlocal_config_written"] = "n_events('tlocal-write') == 1"
-    p.spec_funcs["is_sent"] = lambda interp, v: ops.mk_bool(isSent(v.term))
+    p.spec_funcs["is_sent"] = lambda interp, v: False if v is None else ops.mk_bool(isSent(v.term))
     p.spec_funcs["same_obj"] = lambda interp, a, b: a is b
     p.spec_funcs["all_same"] = lambda interp, a, b: ops.mk_bool(ops.b_and(*[ops.identical(a.d[k], b.d[k]) for k in KEYS]))
+
+    def val_or_none(i):
+        def mk(interp):
+            g = interp.ctx.ghost
+            if "NONE_SETTING" not in g:
+                # (four representatives keep the path count in hand: n_jobs, temp_folder, prefer, require - the code treats the others alike)
+                g["NONE_SETTING"] = (-1, 0, 2, 5, 6)[interp.ctx.choose(5, "setting-passed-as-None")]
+            return None if g["NONE_SETTING"] == i else Val.fresh(interp.ctx, "setting%d" % i)
+        return mk
 
     GLOB_PC = dict(GLOB_A)
     GLOB_PC["_backend"] = tlocal
     p.add(Contract(
         PAR, "parallel_config.__init__", props=["C17"], globals=GLOB_PC, setup=pc_setup,
-        params=dict(self=ObjOf("parallel_config"), backend=Val, n_jobs=Val, verbose=Val, temp_folder=Val, max_nbytes=Val,
-                    mmap_mode=Val, prefer=Val, require=Val, inner_max_num_threads=OneOf(None, INT), backend_params=PyDict({})),
+        # every setting ranges over the abstract values (the 'unset' sentinel among them); in addition ONE of them at a time may be an
+        # explicit None - a value like any other for these seven (prefer=None lifts an outer hint, temp_folder=None means the default
+        # folder ...): an inner block that says None must not inherit the outer block's value.  (backend=None is the documented spelling
+        # of 'unset': _check_backend contract.)
+        params=dict(self=ObjOf("parallel_config"), backend=Val, n_jobs=val_or_none(0), verbose=val_or_none(1), temp_folder=val_or_none(2), max_nbytes=val_or_none(3),
+                    mmap_mode=val_or_none(4), prefer=val_or_none(5), require=val_or_none(6), inner_max_num_threads=OneOf(None, INT), backend_params=PyDict({})),
         calls={"self._check_backend": check_backend_stub},
         ensures=ens,
         exsures={
@@ -301,10 +314,10 @@ def build():
     p.spec_funcs["shm"] = lambda interp, b: interp.getattr(b, "supports_sharedmem", None, default=False)
     p.spec_funcs["thr"] = lambda interp, b: interp.getattr(b, "uses_threads", None, default=False)
 
-    # a hint and a requirement contradict each other only when they are given at the same level (both explicitly, or both by contexts): an
-    # explicit argument wins over the enclosing contexts, and prefer is only a hint - a context's prefer='processes' cannot make an explicit
-    # require='sharedmem' fail, nor the other way round (former finding K19)
-    p.spec_funcs["same_level"] = lambda interp, prefer, require: (prefer is not SENT_B["prefer"]) == (require is not SENT_B["require"])
+    # a hint and a constraint contradict each other only when the SAME call states both (Parallel(prefer='processes', require='sharedmem')):
+    # coming from an enclosing context - one or both, whatever the nesting of the blocks that set them (the merged configuration does not
+    # tell) - the hint gives way, "require='sharedmem' always yields a thread-based backend and prefer is only a hint"
+    p.spec_funcs["same_level"] = lambda interp, prefer, require: (prefer is not SENT_B["prefer"]) and (require is not SENT_B["require"])
     CONTRADICTION = "(resolved('prefer', prefer) == 'processes' and resolved('require', require) == 'sharedmem' and same_level(prefer, require))"
     gab = Contract(
         PAR, "_get_active_backend", props=["C17"], globals=GLOB_B,
